@@ -542,7 +542,8 @@ class Generator:
                             if g is not owned[0]:
                                 skip.add(id(g))
                     else:
-                        merged_stub[id(grp[0])] = merge_stub_headers([g.header_tokens for g in grp])
+                        if not (grp[0].kind == 'const' and grp[0].impl_header is None):
+                            merged_stub[id(grp[0])] = merge_stub_headers([g.header_tokens for g in grp])
                         for g in grp[1:]:
                             skip.add(id(g))
             for it in its:
